@@ -179,6 +179,9 @@ func runC20(c c20Case, rec *stat.Rec) *stat.Failure {
 		if level > 0 && !bytes.Equal(want, expectedFrame(data, bsCode, c.BC, wantCSum, 0)) {
 			rec.Class("level/differs-from-fast")
 		}
+		if level > 1 && !bytes.Equal(want, expectedFrame(data, bsCode, c.BC, wantCSum, level-1)) {
+			rec.Class(fmt.Sprintf("level/%d-differs-from-%d", level, level-1))
+		}
 		return nil
 	}
 	if c.Stdin {
@@ -318,7 +321,7 @@ func drawC20(t *rapid.T) c20Case {
 	c.Size = rapid.SampledFrom([]string{"", "64K", "64K", "64K", "256K", "1M", "4M"}).Draw(t, "size")
 	c.BC = rapid.Bool().Draw(t, "bc")
 	c.SC = rapid.Bool().Draw(t, "sc")
-	c.Level = rapid.SampledFrom([]int{-1, -1, 0, 1, 2, 5, 9}).Draw(t, "level")
+	c.Level = rapid.SampledFrom([]int{-1, -1, 0, 1, 2, 3, 4, 5, 6, 7, 8, 9}).Draw(t, "level")
 	c.Conc = rapid.SampledFrom([]int{0, 0, 1, 2}).Draw(t, "conc")
 	c.Stdin = rapid.IntRange(0, 4).Draw(t, "stdin") == 0
 	c.StdinFile = c.Stdin && rapid.Bool().Draw(t, "stdinfile")
@@ -338,7 +341,19 @@ func drawC20(t *rapid.T) c20Case {
 		if rapid.Bool().Draw(t, "plainmode") {
 			mode = rapid.SampledFrom([]uint32{0o600, 0o644, 0o640, 0o755, 0o666}).Draw(t, "mode")
 		}
-		c.Files = append(c.Files, c20File{Data: drawFrameData(t, n), Mode: mode})
+		d := drawFrameData(t, n)
+		if c.Level > 0 && rapid.IntRange(0, 2).Draw(t, "deepchain") == 0 {
+			// run-heavy data with look-alike contexts far apart: the search depth (the level) decides which match is found
+			ctx := rapid.Uint64().Draw(t, "ctxseed")
+			var segs []gen.Seg
+			for k := rapid.IntRange(2, 5).Draw(t, "nctx"); k > 0; k-- {
+				segs = append(segs, gen.Seg{K: "text", N: rapid.IntRange(40, 400).Draw(t, "ctxn"), S: ctx + uint64(k%2), P: 3},
+					gen.Seg{K: "run", N: rapid.SampledFrom([]int{300, 5000, 33000, 40000, 60000}).Draw(t, "runn"), P: rapid.SampledFrom([]int{0, 'a'}).Draw(t, "runb")},
+					gen.Seg{K: "text", N: rapid.IntRange(8, 60).Draw(t, "ctxn2"), S: ctx, P: 3})
+			}
+			d = gen.Data{Segs: segs}
+		}
+		c.Files = append(c.Files, c20File{Data: d, Mode: mode})
 	}
 	if nf > 1 && !c.Rerun && rapid.IntRange(0, 2).Draw(t, "mixedsizes") == 0 {
 		for i := range c.Files {
@@ -361,6 +376,6 @@ const c20Rule = "the lz4c binary built from the working tree (alternate go.mod w
 func TestC20(t *testing.T) {
 	rec := stat.For("C20")
 	rec.SetRule(c20Rule)
-	rec.Require("nontrivial", "mode/stdin-is-a-regular-file", "mode/files-with-different-block-sizes", "mode/stdin-stdout", "mode/several-files", "mode/output-file-existed", "flag/bc", "flag/sc", "flag/l>0", "level/differs-from-fast", "input/empty", "input/bs", "input/k*bs")
+	rec.Require("nontrivial", "mode/stdin-is-a-regular-file", "mode/files-with-different-block-sizes", "mode/stdin-stdout", "mode/several-files", "mode/output-file-existed", "flag/bc", "flag/sc", "flag/l>0", "level/differs-from-fast", "level/8-differs-from-7", "level/6-differs-from-5", "level/3-differs-from-2", "input/empty", "input/bs", "input/k*bs")
 	checkProp(t, "C20", "C20/cli", pick(4000, 60000), drawC20, runC20)
 }
